@@ -34,6 +34,9 @@ API = ["tt_cross", "tt_oi", "partial_tucker", "initialize_cp", "initialize_tucke
        "p2_projections", "sample_khatri_rao", "random_tensor", "random_tt_matrix", "svd_decompress", "error_metrics", "similarity_metrics", "entropy",
        "decomposition_classes", "wrapper_methods"]
 ENTRY = TENALG + CONV + SVD + DECOMP + PROX + SOLVERS + REG + OTHER + API
+EINSUM_TOO = set(TENALG) | {"cp_to_tensor", "cp_to_unfolded", "tucker_to_tensor", "tt_to_tensor", "tr_to_tensor", "tt_matrix_to_tensor", "parafac", "parafac_random", "nn_parafac",
+                            "nn_parafac_hals", "constrained_nonneg", "constrained_l1", "tucker", "tucker_random", "nn_tucker", "masked_parafac", "cp_lstsq_grad", "cp_regressor",
+                            "tucker_regressor", "cp_plsr", "partial_tucker", "tr_als"}
 COMPLEX_OK = set(TENALG) - {"higher_order_moment"} | {"cp_to_tensor", "cp_to_unfolded", "tucker_to_tensor", "tt_to_tensor", "tr_to_tensor", "tt_matrix_to_tensor", "truncated_svd", "tensor_train", "tucker"}
 
 
@@ -338,6 +341,10 @@ def build(entry, rs, dt):
         n = 10
         fsh = gen.shape(rs, 2, 2, 4)
         Xr, y = A([n] + fsh), A([n])
+        if entry == "cp_regressor" and rs.rand() < 0.5:
+            y = A([n] + gen.shape(rs, int(rs.randint(1, 3)), 1, 3))       # tensor-valued response: the factors of its modes are fitted too
+        elif entry == "cp_plsr" and rs.rand() < 0.5:
+            y = A([n, int(rs.randint(1, 4))])
         if entry == "cp_regressor":
             def f():
                 e = CPRegressor(weight_rank=2, n_iter_max=it, random_state=sd, verbose=0).fit(Xr, y)
@@ -484,6 +491,19 @@ def run_case(case, ctx):
     ctx.count("checked/%s" % entry)
     ctx.count("dtype/%s" % dt)
     f, real_ok = build(entry, rs, dt)
+    use_einsum = entry in EINSUM_TOO and (case["idx"] // len(ENTRY)) % 3 == 1
+    if use_einsum:
+        # the same entry point with the einsum formulations of the tensor algebra selected
+        from tensorly import tenalg as _ta
+        ctx.count("under_einsum_tenalg")
+        f0, prev_ = f, _ta.get_backend()
+
+        def f():
+            _ta.set_backend("einsum")
+            try:
+                return f0()
+            finally:
+                _ta.set_backend(prev_)
     try:
         out = f()
     except np.linalg.LinAlgError:
